@@ -71,6 +71,36 @@ func (in *inliner) sroaEligibleType(t types.Type, file *ast.File) *types.Struct 
 	return st
 }
 
+// litSplittable: a struct literal keyed by field names, or fully positional.
+func litSplittable(lit *ast.CompositeLit, st *types.Struct) bool {
+	for _, e := range lit.Elts {
+		if kv, ok := e.(*ast.KeyValueExpr); ok {
+			if _, ok := kv.Key.(*ast.Ident); !ok {
+				return false
+			}
+		} else if len(lit.Elts) != st.NumFields() {
+			return false
+		}
+	}
+	return true
+}
+
+// stripIdentConv removes parentheses and identity conversions `(T)(e)` to the variable's own type.
+func stripIdentConv(info *types.Info, e ast.Expr, t types.Type) ast.Expr {
+	for {
+		e = stripParens(e)
+		ce, ok := e.(*ast.CallExpr)
+		if !ok || len(ce.Args) != 1 {
+			return e
+		}
+		tv, ok := info.Types[ce.Fun]
+		if !ok || !tv.IsType() || !types.Identical(tv.Type, t) {
+			return e
+		}
+		e = ce.Args[0]
+	}
+}
+
 func stripParens(e ast.Expr) ast.Expr {
 	for {
 		p, ok := e.(*ast.ParenExpr)
@@ -118,7 +148,7 @@ func (in *inliner) sroaFunc(fd *ast.FuncDecl, file *ast.File) int {
 					continue
 				}
 				v := &sroaVar{obj: obj, st: st, isPtr: isPtr, stmt: x, idx: i}
-				switch r := stripParens(x.Rhs[i]).(type) {
+				switch r := stripIdentConv(info, x.Rhs[i], obj.Type()).(type) {
 				case *ast.CompositeLit:
 					if isPtr {
 						continue
@@ -205,6 +235,14 @@ func (in *inliner) sroaFunc(fd *ast.FuncDecl, file *ast.File) int {
 	}
 	// ---- pass C: every use is a field selection, a definition source or a blank assignment
 	blankUse := map[*ast.Ident]bool{}
+	wholeAssign := map[*ast.AssignStmt]bool{}
+	listMember := map[*ast.AssignStmt]bool{}
+	astutil.Apply(fd.Body, func(c *astutil.Cursor) bool {
+		if as, ok := c.Node().(*ast.AssignStmt); ok && c.Index() >= 0 {
+			listMember[as] = true
+		}
+		return true
+	}, nil)
 	type cmpPair struct{ a, b *sroaVar }
 	var cmps []cmpPair
 	cmpExpr := map[*ast.BinaryExpr]bool{}
@@ -232,6 +270,15 @@ func (in *inliner) sroaFunc(fd *ast.FuncDecl, file *ast.File) int {
 		if id, ok := n.(*ast.Ident); ok {
 			if v := vars[info.Uses[id]]; v != nil {
 				good := false
+				if inLit > 0 && len(stack) > 0 {
+					// a closure that only selects fields captures the field variables instead (by
+					// reference, like the whole variable before)
+					if p, ok := stack[len(stack)-1].(*ast.SelectorExpr); ok && p.X == ast.Expr(id) {
+						if sel := info.Selections[p]; sel != nil && sel.Kind() == types.FieldVal && len(sel.Index()) == 1 {
+							good = true
+						}
+					}
+				}
 				if inLit == 0 && len(stack) > 0 {
 					switch p := stack[len(stack)-1].(type) {
 					case *ast.SelectorExpr:
@@ -263,6 +310,29 @@ func (in *inliner) sroaFunc(fd *ast.FuncDecl, file *ast.File) int {
 									if l, ok := p.Lhs[i].(*ast.Ident); ok && l.Name == "_" {
 										good = true
 										blankUse[id] = true
+									}
+									// v = w: whole-value assignment between two split variables
+									if l, ok := p.Lhs[i].(*ast.Ident); ok && !v.isPtr {
+										if lv := vars[info.Uses[l]]; lv != nil && !lv.isPtr && lv.st == v.st && listMember[p] {
+											good = true
+											wholeAssign[p] = true
+											cmps = append(cmps, cmpPair{lv, v})
+										}
+									}
+								}
+								if p.Lhs[i] == ast.Expr(id) && !v.isPtr && listMember[p] {
+									// v = T{...} or v = w
+									switch r := stripParens(p.Rhs[i]).(type) {
+									case *ast.CompositeLit:
+										if tv := info.TypeOf(r); tv != nil && types.Identical(tv.Underlying(), v.st) && litSplittable(r, v.st) {
+											good = true
+											wholeAssign[p] = true
+										}
+									case *ast.Ident:
+										if rv := vars[info.Uses[r]]; rv != nil && !rv.isPtr && rv.st == v.st {
+											good = true
+											wholeAssign[p] = true
+										}
 									}
 								}
 							}
@@ -448,6 +518,55 @@ func (in *inliner) sroaFunc(fd *ast.FuncDecl, file *ast.File) int {
 		case *ast.AssignStmt:
 			var keepL, keepR []ast.Expr
 			touched := false
+			if wholeAssign[x] && x.Tok == token.ASSIGN && len(x.Lhs) == len(x.Rhs) {
+				// v = T{...} / v = w between split variables: field-wise, still one parallel assignment
+				var nl, nr []ast.Expr
+				for i := range x.Lhs {
+					lid, _ := x.Lhs[i].(*ast.Ident)
+					var lv *sroaVar
+					if lid != nil {
+						lv = vars[info.Uses[lid]]
+					}
+					if lv == nil || lv.bad || lv.isPtr {
+						nl, nr = append(nl, x.Lhs[i]), append(nr, x.Rhs[i])
+						continue
+					}
+					switch r := stripParens(x.Rhs[i]).(type) {
+					case *ast.CompositeLit:
+						vals := map[int]ast.Expr{}
+						for k, e := range r.Elts {
+							if kv, ok := e.(*ast.KeyValueExpr); ok {
+								for fi := 0; fi < lv.st.NumFields(); fi++ {
+									if lv.st.Field(fi).Name() == kv.Key.(*ast.Ident).Name {
+										vals[fi] = kv.Value
+									}
+								}
+							} else {
+								vals[k] = e
+							}
+						}
+						for fi := 0; fi < lv.st.NumFields(); fi++ {
+							nl = append(nl, fieldVar(lv, lv.st.Field(fi).Name()))
+							if e, ok := vals[fi]; ok {
+								nr = append(nr, e)
+							} else {
+								te, _ := in.typeExpr(lv.st.Field(fi).Type(), file)
+								nr = append(nr, &ast.StarExpr{X: &ast.CallExpr{Fun: ident("new"), Args: []ast.Expr{te}}})
+							}
+						}
+					case *ast.Ident:
+						rv := vars[info.Uses[r]]
+						for fi := 0; fi < lv.st.NumFields(); fi++ {
+							nl = append(nl, fieldVar(lv, lv.st.Field(fi).Name()))
+							nr = append(nr, fieldVar(rv, lv.st.Field(fi).Name()))
+						}
+					default:
+						nl, nr = append(nl, x.Lhs[i]), append(nr, x.Rhs[i])
+					}
+				}
+				x.Lhs, x.Rhs = nl, nr
+				return true
+			}
 			for i := range x.Lhs {
 				drop := false
 				if x.Tok == token.DEFINE {
@@ -503,7 +622,8 @@ func (in *inliner) sroaFunc(fd *ast.FuncDecl, file *ast.File) int {
 
 // sroaPackage applies sroaFunc to every function of the package.
 func sroaPackage(pk *pkgView, known map[string]bool) (int, []string) {
-	in := &inliner{pkg: pk, known: known, fset: pk.Fset}
+	in := &inliner{pkg: pk, known: known, fset: pk.Fset, seq: normSeq}
+	defer func() { normSeq = in.seq }()
 	total := 0
 	for _, f := range pk.Syntax {
 		for _, d := range f.Decls {
@@ -532,7 +652,8 @@ func smallArray(t types.Type) (*types.Array, bool) {
 
 type arrVar struct {
 	obj  types.Object
-	arr  *types.Array
+	n    int64             // number of elements
+	elem types.Type        // element type
 	lit  *ast.CompositeLit // nil for `var x [N]T`
 	stmt ast.Stmt
 	idx  int
@@ -563,21 +684,28 @@ func (in *inliner) sroaArrays(fd *ast.FuncDecl, file *ast.File) int {
 				if !ok || !ok2 || id.Name == "_" || info.Defs[id] == nil {
 					continue
 				}
-				arr, ok := smallArray(info.Defs[id].Type())
-				if !ok {
+				var n int64
+				var et types.Type
+				if arr, ok := smallArray(info.Defs[id].Type()); ok {
+					n, et = arr.Len(), arr.Elem()
+				} else if sl, ok := info.Defs[id].Type().Underlying().(*types.Slice); ok && len(lit.Elts) >= 1 && len(lit.Elts) <= 16 {
+					// a slice literal that is only ever indexed by constants (checked below) is a
+					// fixed set of variables as well: nothing can append to it or alias it
+					n, et = int64(len(lit.Elts)), sl.Elem()
+				} else {
 					continue
 				}
-				if _, tok := in.typeExpr(arr.Elem(), file); !tok {
+				if _, tok := in.typeExpr(et, file); !tok {
 					continue
 				}
-				good := int64(len(lit.Elts)) <= arr.Len()
+				good := int64(len(lit.Elts)) <= n
 				for _, e := range lit.Elts {
 					if _, isKV := e.(*ast.KeyValueExpr); isKV {
 						good = false
 					}
 				}
 				if good {
-					vars[info.Defs[id]] = &arrVar{obj: info.Defs[id], arr: arr, lit: lit, stmt: x, idx: i}
+					vars[info.Defs[id]] = &arrVar{obj: info.Defs[id], n: n, elem: et, lit: lit, stmt: x, idx: i}
 				}
 			}
 		case *ast.DeclStmt:
@@ -592,7 +720,7 @@ func (in *inliner) sroaArrays(fd *ast.FuncDecl, file *ast.File) int {
 			obj := info.Defs[vs.Names[0]]
 			if arr, ok := smallArray(obj.Type()); ok {
 				if _, tok := in.typeExpr(arr.Elem(), file); tok {
-					vars[obj] = &arrVar{obj: obj, arr: arr, stmt: x}
+					vars[obj] = &arrVar{obj: obj, n: arr.Len(), elem: arr.Elem(), stmt: x}
 				}
 			}
 		}
@@ -634,7 +762,7 @@ func (in *inliner) sroaArrays(fd *ast.FuncDecl, file *ast.File) int {
 					switch p := stack[len(stack)-1].(type) {
 					case *ast.IndexExpr:
 						if p.X == ast.Expr(id) {
-							if _, ok := constIndex(p.Index, v.arr.Len()); ok {
+							if _, ok := constIndex(p.Index, v.n); ok {
 								good = true
 							}
 						}
@@ -683,7 +811,7 @@ func (in *inliner) sroaArrays(fd *ast.FuncDecl, file *ast.File) int {
 		case *ast.IndexExpr:
 			if id, ok := x.X.(*ast.Ident); ok {
 				if v := vars[info.Uses[id]]; v != nil && !v.bad {
-					k, _ := constIndex(x.Index, v.arr.Len())
+					k, _ := constIndex(x.Index, v.n)
 					c.Replace(elem(v, k))
 					return false
 				}
@@ -692,7 +820,7 @@ func (in *inliner) sroaArrays(fd *ast.FuncDecl, file *ast.File) int {
 			if f, ok := x.Fun.(*ast.Ident); ok && f.Name == "len" && len(x.Args) == 1 {
 				if id, ok := x.Args[0].(*ast.Ident); ok {
 					if v := vars[info.Uses[id]]; v != nil && !v.bad {
-						c.Replace(&ast.CallExpr{Fun: ident("int"), Args: []ast.Expr{&ast.BasicLit{Kind: token.INT, Value: fmt.Sprint(v.arr.Len())}}})
+						c.Replace(&ast.CallExpr{Fun: ident("int"), Args: []ast.Expr{&ast.BasicLit{Kind: token.INT, Value: fmt.Sprint(v.n)}}})
 						return false
 					}
 				}
@@ -703,8 +831,8 @@ func (in *inliner) sroaArrays(fd *ast.FuncDecl, file *ast.File) int {
 	declare := func(v *arrVar) []ast.Stmt {
 		var out []ast.Stmt
 		var l, r []ast.Expr
-		for k := int64(0); k < v.arr.Len(); k++ {
-			te, _ := in.typeExpr(v.arr.Elem(), file)
+		for k := int64(0); k < v.n; k++ {
+			te, _ := in.typeExpr(v.elem, file)
 			spec := &ast.ValueSpec{Names: []*ast.Ident{elem(v, k)}, Type: te}
 			if v.lit != nil && k < int64(len(v.lit.Elts)) {
 				spec.Values = []ast.Expr{v.lit.Elts[k]}
@@ -781,6 +909,34 @@ func (in *inliner) sroaArrays(fd *ast.FuncDecl, file *ast.File) int {
 	return n
 }
 
+// sliceLitLen: obj is defined in fd by `obj := []T{e0, ..., ek-1}` (1 <= k <= 16, no keys); returns k, else 0.
+func sliceLitLen(info *types.Info, fd *ast.FuncDecl, obj types.Object) int64 {
+	if _, isSlice := obj.Type().Underlying().(*types.Slice); !isSlice {
+		return 0
+	}
+	var n int64
+	ast.Inspect(fd.Body, func(m ast.Node) bool {
+		as, ok := m.(*ast.AssignStmt)
+		if !ok || as.Tok != token.DEFINE || len(as.Lhs) != len(as.Rhs) {
+			return true
+		}
+		for i, l := range as.Lhs {
+			if id, ok := l.(*ast.Ident); ok && info.Defs[id] == obj {
+				if lit, ok := stripParens(as.Rhs[i]).(*ast.CompositeLit); ok && len(lit.Elts) >= 1 && len(lit.Elts) <= 16 {
+					n = int64(len(lit.Elts))
+					for _, e := range lit.Elts {
+						if _, isKV := e.(*ast.KeyValueExpr); isKV {
+							n = 0
+						}
+					}
+				}
+			}
+		}
+		return true
+	})
+	return n
+}
+
 func constantInt64(tv types.TypeAndValue) (int64, bool) {
 	if tv.Value == nil || tv.Value.Kind() != constant.Int {
 		return 0, false
@@ -795,7 +951,8 @@ func constantInt64(tv types.TypeAndValue) (int64, bool) {
 // the array can then be split (sroaArrays).  continue/break of the loop become
 // breaks of single-pass wrapper loops.
 func unrollPackage(pk *pkgView, known map[string]bool) (int, []string) {
-	in := &inliner{pkg: pk, known: known, fset: pk.Fset}
+	in := &inliner{pkg: pk, known: known, fset: pk.Fset, seq: normSeq}
+	defer func() { normSeq = in.seq }()
 	info := pk.TypesInfo
 	total := 0
 	for _, f := range pk.Syntax {
@@ -811,8 +968,27 @@ func unrollPackage(pk *pkgView, known map[string]bool) (int, []string) {
 				var iv types.Object
 				var n int64
 				var body *ast.BlockStmt
+				var seqName, valName string // range over a local slice literal: the slice and the element variable
 				switch x := c.Node().(type) {
 				case *ast.RangeStmt:
+					if xid, ok := x.X.(*ast.Ident); ok && x.Tok == token.DEFINE {
+						if obj, isVar := info.Uses[xid].(*types.Var); isVar && !obj.IsField() && obj.Parent() != pk.Types.Scope() {
+							if k := sliceLitLen(info, fd, obj); k >= 1 && in.readOnlyIn(obj, fd.Body, false) {
+								kid, _ := x.Key.(*ast.Ident)
+								vid, _ := x.Value.(*ast.Ident)
+								if (x.Key == nil || kid != nil) && (x.Value == nil || vid != nil) {
+									n, body, seqName = k, x.Body, xid.Name
+									if kid != nil && kid.Name != "_" {
+										iv = info.Defs[kid]
+									}
+									if vid != nil && vid.Name != "_" {
+										valName = vid.Name
+									}
+									break
+								}
+							}
+						}
+					}
 					key, ok := x.Key.(*ast.Ident)
 					xid, ok2 := x.X.(*ast.Ident)
 					if !ok || !ok2 || x.Tok != token.DEFINE || x.Value != nil || key.Name == "_" {
@@ -857,11 +1033,14 @@ func unrollPackage(pk *pkgView, known map[string]bool) (int, []string) {
 				default:
 					return true
 				}
-				if iv == nil || !in.readOnlyIn(iv, body, true) {
+				if seqName == "" && iv == nil {
+					return true
+				}
+				if iv != nil && !in.readOnlyIn(iv, body, true) {
 					return true
 				}
 				// the body indexes a small local array with the loop variable
-				indexes := false
+				indexes := seqName != ""
 				good := true
 				ast.Inspect(body, func(m ast.Node) bool {
 					switch y := m.(type) {
@@ -893,7 +1072,18 @@ func unrollPackage(pk *pkgView, known map[string]bool) (int, []string) {
 				for j := int64(0); j < n; j++ {
 					lj := fmt.Sprintf("%s_%d", outer, j)
 					lit := &ast.CallExpr{Fun: ident("int"), Args: []ast.Expr{&ast.BasicLit{Kind: token.INT, Value: fmt.Sprint(j)}}}
-					bj := in.substituteCloneNode(body, map[types.Object]ast.Expr{iv: lit}).(*ast.BlockStmt)
+					sub := map[types.Object]ast.Expr{}
+					if iv != nil {
+						sub[iv] = lit
+					}
+					bj := in.substituteCloneNode(body, sub).(*ast.BlockStmt)
+					if valName != "" {
+						// the element is read when its iteration starts, as the range statement does
+						bj.List = append([]ast.Stmt{
+							&ast.AssignStmt{Lhs: []ast.Expr{ident(valName)}, Tok: token.DEFINE, Rhs: []ast.Expr{&ast.IndexExpr{X: ident(seqName), Index: &ast.BasicLit{Kind: token.INT, Value: fmt.Sprint(j)}}}},
+							&ast.AssignStmt{Lhs: []ast.Expr{ident("_")}, Tok: token.ASSIGN, Rhs: []ast.Expr{ident(valName)}},
+						}, bj.List...)
+					}
 					retarget(bj, outer, lj, false, false)
 					bj.List = append(bj.List, &ast.BranchStmt{Tok: token.BREAK, Label: ident(lj)})
 					copies = append(copies, &ast.LabeledStmt{Label: ident(lj), Stmt: &ast.ForStmt{Body: bj}})
